@@ -56,7 +56,7 @@ Definition run_event (I : instance) (ev : val) : wld -> wld * val :=
   | 3 => fin vnat (new_observer I (dec_okind (vnth ev 1)) w)
   | 4 => fin (fun _ : unit => VL []) (unsubscribe (asN (vnth ev 1)) w)
   | 5 => fin (fun _ : unit => VL []) (subscribe (asN (vnth ev 1)) w)
-  | 6 => fin vnat (create_or_get I (dec_okind (vnth ev 1)) w)
+  | 6 => fin vnat (create_or_get I (dec_okind (vnth ev 1)) (asOpt (asLof asN) (vnth ev 2)) w)
   | 8 => fin (fun _ : unit => vlist vnat (subs w)) (env_step o_update I (asN (vnth ev 1)) (asZ (vnth ev 2)) w)
   | _ => (w, snapshot I w)
   end.
